@@ -954,7 +954,7 @@ func main() {
 	// --- G1b: AddRoute called repeatedly for the same pair (the last one wins) ---
 	nDup := 12
 	if thorough {
-		nDup = 120
+		nDup = 300
 	}
 	for k := 0; k < nDup; k++ {
 		l := &listenerCfg{}
@@ -976,7 +976,7 @@ func main() {
 	alpha := []mwc{{Kind: "logreq"}, {Kind: "logresp"}, {Kind: "rec", I: 1}, {Kind: "rec", I: 2}}
 	L := 3
 	if thorough {
-		L = 4
+		L = 5
 	}
 	progs := [][]hop{
 		{{Kind: "echo"}},
@@ -1025,7 +1025,7 @@ func main() {
 	// --- G3: structured random configurations ---
 	nRand := 120
 	if thorough {
-		nRand = 700
+		nRand = 2500
 	}
 	for k := 0; k < nRand; k++ {
 		sc := &scenario{Group: "rand", HTTP: g.randListener(), HTTPS: g.randListener(), TLSInCfg: g.rng.Intn(2) == 0, H2: g.rng.Intn(2) == 0}
